@@ -40,10 +40,10 @@ PROBES = [
 def run_probe(i):
     import sqlparse
     from sqlparse import lexer
-    from oracles.treecheck import shape
+    from oracles.treecheck import flat_shape
     func, text, opts = PROBES[i]
     if func == 'parse':
-        return [[str(s), repr(shape(s)), s.get_type()] for s in sqlparse.parse(text)]
+        return [[str(s), flat_shape(s), s.get_type()] for s in sqlparse.parse(text)]
     if func == 'split':
         return sqlparse.split(text)
     if func == 'tokenize':
